@@ -241,4 +241,22 @@ def confirm(sc, replay):
     for d in mj['type_ngrams']:
         if len(d['weights']) != 2 * tw - len(d['ngram']) + 1:
             bad.append('type n-gram %r has %d weights, own window needs %d' % (d['ngram'], len(d['weights']), 2 * tw - len(d['ngram']) + 1))
+    # dictionary words: left / inside* / right of the word's length bucket, one weight per boundary position of the word
+    max_len = sc.get('max_len') or 1
+    buckets = {}
+    for d in mj.get('dict', []):
+        n = len(d['word']); w = d['weights']
+        if len(w) != n + 1:
+            bad.append('dictionary word %r (%d chars) has %d weights, needs %d' % (d['word'], n, len(w), n + 1))
+            continue
+        if len(set(w[1:n])) > 1:
+            bad.append('dictionary word %r has differing inside weights %r' % (d['word'], w))
+            continue
+        key = (w[0], w[1] if n > 1 else None, w[-1])
+        b = min(n, max_len) - 1
+        prev = buckets.setdefault(b, key)
+        if prev[0] != key[0] or prev[2] != key[2] or (prev[1] is not None and key[1] is not None and prev[1] != key[1]):
+            bad.append('dictionary words of length bucket %d carry different left/inside/right weights: %r vs %r' % (b + 1, prev, key))
+        if prev[1] is None and key[1] is not None:
+            buckets[b] = key
     return bool(bad), {'native_violations': bad[:5]}
